@@ -24,6 +24,7 @@ EXPLANATION = (
     "principal is the delta; the principal is never reassigned; Loan.close has no other caller. C02.5: a fill that would "
     "overdraw is turned into 'not filled' (handler for NotEnoughBalance without re-raise); reported balance formula. "
     "Numeric values and accounts started with negative initial balances are outside the claim."
+    " C02.4 also: nothing can fail between crediting the borrowed amount and registering the loan, the registration post-dominates the commit, and every lending strategy lends exactly the amount requested."
 )
 TRUSTED = ["CPython ast parser", "mypy callee/receiver resolution", "sa.cfg statement CFG", "sa.cells", "sa.summaries"]
 
